@@ -81,9 +81,9 @@ classdef("SimulatedBinaryCrossover", bases=["Crossover"], fields={"distribution_
 for _c in ("RandomGenerator", "UniformGenerator", "LHSGenerator", "HaltonGenerator"):
     classdef(_c, bases=["Generator"], fields={})
 # ---- sqlite model (C10/C11): a connection counts the statements executed since its last commit (ghost) ------------------
-classdef("SqlConn", fields={"ghost_pending": "Int", "ghost_commits": "Int", "ghost_stmts": "Int", "ghost_last_sql": "Str",
+classdef("SqlConn", fields={"ghost_journal_off": "Bool", "ghost_pending": "Int", "ghost_commits": "Int", "ghost_stmts": "Int", "ghost_last_sql": "Str",
                             "ghost_last_id": "Int", "ghost_last_doc": "Ref[IndDoc]", "ghost_ids": "List[Int]"})
 classdef("SqlCursor", fields={"conn": "Ref[SqlConn]"})
 classdef("IndDoc", fields={"ghost_of": "Ref[Individual]", "ghost_costs": "List[Real]", "ghost_vector": "List[Real]"})
 classdef("SqliteDataStore", bases=["DataStore"],
-         fields={"problem": "Ref[Problem]", "mode": "Str", "thread_safe": "Bool", "database_name": "Str"})
+         fields={"problem": "Ref[Problem]", "mode": "Str", "thread_safe": "Bool", "database_name": "Str", "_conn": "Opt[Ref[SqlConn]]"})
